@@ -120,3 +120,27 @@ Definition pinned_resource_rows : list (N * (str * str)) :=
    (A_RESOURCE_FABNETV6_EXT, (S"urn:fabric:xacml:attribute:resource-fabnetv6-ext-site", xs_string));
    (A_RESOURCE_MIRROR_SITE, (S"urn:fabric:xacml:attribute:resource-mirrorsite", xs_string));
    (A_RESOURCE_FACILITY_PORT, (S"urn:fabric:xacml:attribute:resource-facility-port", xs_string))].
+
+(* ---- the same elements enumerated in another order (what distinguishes the graph walked by the ASM path from the
+        topology object's listing), components of a node possibly enumerated in another order as well ---- *)
+Definition gelem_eqv (a b : gelem) : Prop :=
+  match a, b with
+  | GNode n, GNode n' => node_eqv n n'
+  | GSvc v, GSvc v' => v = v'
+  | GFac f, GFac f' => f = f'
+  | GPort p, GPort p' => p = p'
+  | _, _ => False
+  end.
+
+Definition graph_eqv (g g' : agraph) : Prop := exists l, Permutation g l /\ Forall2 gelem_eqv l g'.
+
+(* the elements of a slice in the order the topology object lists them *)
+Definition graph_of_slice (s : slice) : agraph :=
+  map GNode (sl_nodes s) ++ map GPort (sl_ports s) ++ map GSvc (sl_svcs s) ++ map GFac (sl_facs s).
+
+(* ---- dispatch: member classes handed out by the topology API that collect_resource_attributes does NOT route
+        (exact-class METHOD_LUT lookup; known finding C11 "PortMirrorService not dispatched", see notes/C11.md).
+        Becomes [] when proposed_fixes/C11-1.patch lands. ---- *)
+Definition known_unrouted : list string := ["PortMirrorService"%string].
+Definition smem_s (x : string) (l : list string) : bool := existsb (String.eqb x) l.
+Definition routed (c : string) : bool := smem_s c (map fst method_lut) && smem_s c (map fst log_method_lut).
